@@ -39,6 +39,8 @@ def kind_sort(kind):
         return z3.SeqSort(z3.IntSort())
     if kind == "seq[str]":
         return z3.SeqSort(z3.StringSort())
+    if kind.startswith("opt") and kind[3:] in ("map[str,ref]", "set[ref]", "seq[ref]"):
+        return kind_sort(kind[3:])
     raise KeyError(kind)
 
 
